@@ -217,6 +217,9 @@ def cases(draw, max_steps=12):
     if draw(st.integers(0, 19)) == 0:
         n, dt = draw(st.sampled_from([(330, 0.5), (200, 0.9), (140, 1.3)]))
         steps = steps[:3] + [["poll", n, dt]] + steps[3:5]
+        if proto.get("priv_pw"):
+            # (puresnmp derives the privacy key anew for every encrypted message, 1 MiB of hashing each: pollers use auth only)
+            proto = vworld.V3_PROTOS[1] if proto["algo"] == "md5" else vworld.V3_PROTOS[2]
     case = dict(proto=proto, steps=steps,
                 start=draw(st.sampled_from([1_700_000_000, 1_700_000_000.75, 5, 2 ** 31 - 10 ** 8])))
     if draw(st.integers(0, 4)) == 0:
@@ -229,6 +232,6 @@ def cases(draw, max_steps=12):
 
 
 def units(tier, seed):
-    n, m = (70, 12) if tier == "quick" else (1200, 30)
+    n, m = (100, 12) if tier == "quick" else (1200, 30)
     return [Unit("hyp-%d" % sh, hypothesis_unit, strategy=cases(max_steps=m), examples=n, seed=shard_seed(seed, sh),
                  label="hyp-%d" % sh) for sh in range(16)]
